@@ -164,6 +164,25 @@ theorem breaker_transparent (h : Handler) (st : St) : apply .breaker h st = h st
 
 example : (apply .instantAck scripted (exSt [.ret [] none])).2.log = [⟨false, false, true, .absent⟩] := by decide
 
+/-- a message whose context is already done (cancelled, or under a Timeout outside the Throttle that expired) still
+    takes its tick: the handler is started on the state with one more tick consumed, whatever the context -/
+theorem throttle_takes_tick_whatever_the_context (h : Handler) (st : St) :
+    (apply .throttle h st) = h { st with ticks := st.ticks + 1 } ∧
+    run [.timeout true, .throttle] h st =
+      ((h { st with ctx := deriveCtx st.ctx true, ticks := st.ticks + 1 }).1,
+       { (h { st with ctx := deriveCtx st.ctx true, ticks := st.ticks + 1 }).2 with ctx := st.ctx }) := by
+  constructor <;> rfl
+
+example : (run [.timeout true, .throttle] scripted (exSt [.ret [] none])).2.ticks = 1 ∧
+    (run [.timeout true, .throttle] scripted (exSt [.ret [] none])).2.log = [⟨true, true, false, .absent⟩] := by decide +kernel
+
+/-- candidate finding "breaker+panicnil": with the legacy behaviour of the library a handler's `panic(nil)` is reported as
+    success, where the transparent breaker of the model (and of the statement) lets the panic through -/
+theorem Legacy.breaker_swallows_nil_panic :
+    (Legacy.breaker scripted (exSt [.panic .nil])).1 = .ret [] none ∧
+    (Wm.Mw.apply .breaker scripted (exSt [.panic .nil])).1 = .panic .nil ∧
+    (Legacy.breaker scripted (exSt [.panic (.str "x")])).1 = .panic (.str "x") := by decide +kernel
+
 /-- **handler starts no faster than the configured rate**, over the abstract one-slot ticker of period `d` with punctual
     timers: in every run the ticker admits, `n` further starts after the `i`-th take at least `(n-1)·d`; hence a
     window of length `L` contains at most `L/d + 2` starts (one tick may wait in the slot).  Without the punctuality
